@@ -126,16 +126,26 @@ def discharge_purified(ob, timeout_s=10):
     if _has_quantifier(fs):
         return None
     t0 = time.time()
+    r, s = z3.unknown, None
     try:
         pf, names = purify(fs)
         g = z3.Goal()
         for f in pf:
             g.add(f)
-        tac = z3.TryFor(z3.Then(z3.With("simplify", som=True), "propagate-values", "solve-eqs",
-                                z3.With("simplify", som=True), "qfnra-nlsat"), int(timeout_s * 1000))
-        s = tac.solver()
-        s.add(g.as_expr())
-        r = s.check()
+        # (a) sum-of-monomials normalisation: closes polynomial identities by rewriting alone;
+        # (b) structure-preserving: better when large sub-terms (sqrt, quotients) are substituted into polynomials
+        budget = int(timeout_s * 1000)
+        for som, ms in ((True, min(budget, 4000)), (False, budget)):
+            tac = z3.TryFor(z3.Then(z3.With("simplify", som=som), "propagate-values", "solve-eqs",
+                                    z3.With("simplify", som=som), "qfnra-nlsat"), ms)
+            s = tac.solver()
+            s.add(g.as_expr())
+            try:
+                r = s.check()
+            except z3.Z3Exception:
+                r = z3.unknown
+            if r != z3.unknown:
+                break
     except z3.Z3Exception:
         return None
     dt = time.time() - t0
@@ -151,6 +161,26 @@ def discharge_purified(ob, timeout_s=10):
 
 def _mentions_strings(ob, limit=600):
     """Does a bounded sample of the goal / most recent hypotheses contain a term of sort String?"""
+    try:
+        stack, seen, n = [ob.goal] + list(ob.hyps)[-30:], set(), 0
+        while stack and n < limit:
+            e = stack.pop()
+            i = e.get_id()
+            if i in seen:
+                continue
+            seen.add(i)
+            n += 1
+            if z3.is_string(e):
+                return True
+            stack.extend([e.body()] if z3.is_quantifier(e) else e.children())
+    except Exception:
+        pass
+    return False
+
+
+def _mentions_strings(ob, limit=600):
+    """(C19) Does a bounded sample of the goal / most recent hypotheses contain a term of sort String?
+    NB: `discharge` calls this - keep it when editing this file."""
     try:
         stack, seen, n = [ob.goal] + list(ob.hyps)[-30:], set(), 0
         while stack and n < limit:
